@@ -86,6 +86,7 @@ def main(argv=None):
         from contracts import finite_host  # noqa: F401
         from contracts import bounded  # noqa: F401
         from contracts import finite_pairing  # noqa: F401
+        from contracts import finite_unquote  # noqa: F401
     except Exception:
         traceback.print_exc()
         print(f"CHECKER-ERROR property={a.prop}: contracts could not be loaded")
